@@ -1300,6 +1300,81 @@ func runIndexGuard(p *Program, r *Report, a *verifyAnchors) {
 		}
 	}
 	r.Stats["index.computed_by_caller_length"] = k
+
+	// A slice the closure allocates with a fixed length (make([]T, n)) and fills through a counter
+	// of its own: the counter has to be bounded by that length - by a guard, by the loop test, or by
+	// being the counter of a loop over a slice of the same length. "At most one entry per root" is
+	// an assumption about honest input; duplicated targets yield more.
+	m2 := 0
+	for _, fn := range sortedFuncs(p, a.vc) {
+		name := p.FuncName(fn)
+		ord := 0
+		for _, b := range fn.Blocks {
+			for _, in := range b.Instrs {
+				ia, ok := in.(*ssa.IndexAddr)
+				if !ok {
+					continue
+				}
+				mk, ok := ia.X.(*ssa.MakeSlice)
+				if !ok {
+					continue
+				}
+				if _, isConst := ia.Index.(*ssa.Const); isConst {
+					continue
+				}
+				// only element writes matter here (reads of a fresh slice are covered elsewhere)
+				written := false
+				if ia.Referrers() != nil {
+					for _, ref := range *ia.Referrers() {
+						if st, ok := ref.(*ssa.Store); ok && st.Addr == ia {
+							written = true
+						}
+					}
+				}
+				if !written {
+					continue
+				}
+				ord++
+				m2++
+				key := fmt.Sprintf("%s/made:%s[%d]", name, exprName(ia.X), ord)
+				gs := guardsAtInstr(ia)
+				isIdx := func(v ssa.Value) bool { return v == ia.Index }
+				isBound := func(v ssa.Value) bool {
+					if s, ok := lenArg(v); ok && (s == ssa.Value(mk) || sameValue(s, mk)) {
+						return true
+					}
+					return v == mk.Len || sameValue(v, mk.Len)
+				}
+				okBound := false
+				if _, ok := holdsRel(gs, []token.Token{token.LSS}, isIdx, isBound); ok {
+					okBound = true
+				}
+				// counter of a loop whose test compares it with the make length or with len of a slice the make length was taken from
+				if !okBound && ia.Index.Referrers() != nil {
+					for _, ref := range *ia.Index.Referrers() {
+						bo, ok := ref.(*ssa.BinOp)
+						if !ok || bo.Op != token.LSS || bo.X != ia.Index {
+							continue
+						}
+						if isBound(bo.Y) {
+							okBound = true
+						}
+						if s, isLen := lenArg(bo.Y); isLen {
+							if ml, isLen2 := lenArg(mk.Len); isLen2 && sameValue(s, ml) {
+								okBound = true
+							}
+						}
+					}
+				}
+				if okBound {
+					r.Discharge("R04e", key, posOf(p, ia), "the index into the slice made with a fixed length is bounded by that length", true)
+				} else {
+					r.Violate("R04e", key, posOf(p, ia), "a slice made with a fixed length is filled through a counter that nothing bounds by that length: the length rests on an assumption about honest input (for instance one entry per root), and an adversarial proof with repeated targets writes past it", "in "+name)
+				}
+			}
+		}
+	}
+	r.Stats["index.made_fixed_length_writes"] = m2
 }
 
 // suppliedParams computes the (function, parameter) pairs that carry values
